@@ -1,20 +1,24 @@
 #!/bin/bash
-# usage: tools/eval_all_seeds.sh [--update] — applies every seeded change to /repo in turn, runs all checks
-# on it (occheck scan, writes nothing), reverts; prints per seed whether its own property's check fired.
-# With --update, records the obligations that fired in seeded/<id>/meta.json (detected_by).
-UPDATE=0; [ "${1:-}" = "--update" ] && UPDATE=1
-cd /repo || exit 2
-git diff --quiet || { echo "/repo has uncommitted changes"; exit 2; }
-for d in /verif/seeded/*/; do
-  id=$(basename "$d"); prop=${id%%-*}
-  if ! git apply --check "$d/patch.diff" 2>/dev/null; then echo "$id: PATCH DOES NOT APPLY"; continue; fi
-  git apply "$d/patch.diff"
-  out=$(/verif/bin/occheck scan 2>&1)
-  git checkout -- .
+# usage: tools/eval_all_seeds.sh [--update] [-j N] — evaluates every seeded change: the patch is applied to a
+# scratch copy of /repo's HEAD (git archive; /repo itself is not touched, so several can run at once), every
+# check is run on it (occheck scan with OCCHECK_REPO, writes nothing), the copy is removed; prints per seed
+# whether its own property's check fired. With --update, records the obligations that fired in
+# seeded/<id>/meta.json (detected_by). tools/eval_seed.sh does the same for one seed by applying it to /repo.
+UPDATE=0; J=4
+while [ $# -gt 0 ]; do case "$1" in --update) UPDATE=1;; -j) shift; J=$1;; esac; shift; done
+export UPDATE
+one() {
+  d="$1"; id=$(basename "$d"); prop=${id%%-*}
+  S=$(mktemp -d /tmp/evalseed.XXXXXX)
+  git -C /repo archive HEAD | tar -x -C "$S"
+  if ! (cd "$S" && patch -s -p1 --dry-run < "$d/patch.diff" >/dev/null 2>&1); then echo "$id: PATCH DOES NOT APPLY"; rm -rf "$S"; return; fi
+  (cd "$S" && patch -s -p1 < "$d/patch.diff")
+  out=$(OCCHECK_REPO="$S" /verif/bin/occheck scan 2>&1)
+  rm -rf "$S"
   own=$(echo "$out" | grep -E "^$prop " | awk '{print $1" "$2" "$3}' | sort -u)
   other=$(echo "$out" | grep -E "^C[0-9]+ " | grep -v "^$prop " | awk '{print $1" "$2" "$3}' | sort -u)
   if [ -n "$own" ]; then echo "$id: DETECTED by $(echo $own | tr '\n' ' ') ${other:+(also $(echo $other | tr '\n' ' '))}"; else echo "$id: MISSED by $prop ${other:+(fired: $(echo $other | tr '\n' ' '))}"; fi
-  if [ $UPDATE = 1 ]; then
+  if [ "$UPDATE" = 1 ]; then
     python3 - "$d/meta.json" "$own" "$other" <<'PY'
 import json,sys
 p,own,other=sys.argv[1:4]
@@ -23,5 +27,6 @@ d['detected_by']=[x for x in own.split('\n') if x]+[x for x in other.split('\n')
 json.dump(d,open(p,'w'),indent=1)
 PY
   fi
-done
-git status --short | grep -v '^??' | head
+}
+export -f one
+ls -d /verif/seeded/C*/ | sed 's|/$||' | xargs -P "$J" -I{} bash -c 'one {}' | sort
